@@ -56,7 +56,7 @@ theorem C03_wick_step (ρ : Nat → Nat) (f : Nat → Nat → Int) (a b : Nat) (
     pattern itself, for every orbital assignment `ρ`, bra functional `f` and determinant `(a, b)` -/
 theorem C03_wick_loop (ρ : Nat → Nat) (f : Nat → Nat → Int) (a b : Nat) (pattern : List (Nat × Bool)) :
     evalList ρ f a b (wickNormalForm pattern) =
-      C01.evalRes f (applyTerm (pattern.map (fun o => (ρ o.1, o.2))) a b) := by
+      evalRes f (applyTerm (pattern.map (fun o => (ρ o.1, o.2))) a b) := by
   unfold wickNormalForm
   rw [wnormalize_sound]
   simp [evalList, evalItem, deltasOk, itemTerm]
